@@ -921,12 +921,17 @@ func vlDrive(t *testing.T, rule string, probes bool) {
 	base := vlBase(t)
 	recs := kit.NewNDJSON("recs.ndjson")
 	defer recs.Close()
+	diag := kit.NewNDJSON("diag.ndjson")
+	defer diag.Close()
 	for _, s := range scheds {
 		r := vlRun(t, base, s, probes)
 		if t.Failed() {
 			res.Problem("schedule %s failed in the harness", s.ID)
 			return
 		}
+		// diagnostics (gate trace, logger output of the lock code) go to a separate file: TLC reads recs.ndjson
+		diag.Write(map[string]any{"id": r.ID, "sched": r.Sched, "trace": r.Trace, "logs": r.Logs, "errs": r.Errs})
+		r.Trace, r.Logs = []string{}, []string{}
 		recs.Write(r)
 		nontrivial := false
 		for _, o := range r.Obs {
